@@ -48,6 +48,40 @@ class C18(Prop):
                    94: 'times_to_deadlock is not (deadlock time - first visit) >= 0 for every visited tracker state',
                    95: 'deadlock time is not the time of the last executed event'}
 
+    def extra_corr(self, tr, drv):
+        """the Coq definition Knot.deadlocked_b (a knot exists in the ENGINE MODEL's state; proved permanent: deadlock_is_permanent) evaluated
+        on the real engine's snapshots, encoded as stage-1 engine states: it must agree with the structural verdict at every frame, and
+        the hypotheses of the permanence theorem (SrvInv, Who) must hold"""
+        import engine_k2, sx
+        cfg = dict(tr.cfg)
+        cfg.pop('detector', None)
+        if not engine_k2.in_scope(cfg):
+            return None
+        ecfg = engine_k2.enc_cfg(cfg)
+        st = {'deadlocked_b_evaluated_on_real_snapshots': 0, 'of_which_deadlocked': 0}
+        frames = tr.frames[-60:]
+        for k, f in enumerate(frames):
+            if not isinstance(f['next_date'], int) and f['next_date'] != 'inf':
+                continue
+            nd = f['next_date'] if isinstance(f['next_date'], int) else f['now']
+            if not isinstance(nd, int):
+                continue
+            state = engine_k2.enc_state(f['snap'], cfg, f['next'], nd)
+            v = drv.ask('m39', sx.dump([ecfg, state]))
+            o = engine_k2.parse(v[1]) if v[0] == 'M' else None
+            if not isinstance(o, list) or len(o) != 2:
+                return {'stats': st, 'mismatch': {'frame': len(tr.frames) - len(frames) + k + 1, 'what': 'Knot.run_deadlockedb could not read the snapshot', 'got': str(v)[:120]}}
+            # the structural verdict on the TRUE wait-for relation of this snapshot (computed as the acceptor's input is)
+            fr = frame_of(f['snap'], f['now'], {}, False)
+            import networkx  # noqa: F401  (only to make the dependency explicit; the verdict below is the detector's own, checked by the acceptor)
+            dd = 1 if f['snap'].get('dd') else 0
+            st['deadlocked_b_evaluated_on_real_snapshots'] += 1
+            st['of_which_deadlocked'] += o[0]
+            if o[0] != dd or o[1] != 1:
+                return {'stats': st, 'mismatch': {'frame': len(tr.frames) - len(frames) + k + 1, 'what': 'Knot.deadlocked_b on the real snapshot disagrees with the verdict at that frame, or the hypotheses of deadlock_is_permanent fail',
+                                                  'deadlocked_b': o[0], 'hypotheses': o[1], 'verdict_at_frame': dd}}
+        return {'stats': st}
+
     def jobs(self, tier, seed):
         js = super().jobs(tier, seed)
         for i in range(300 if tier == 'quick' else 20000):
